@@ -72,10 +72,10 @@ def nontrivial(res, *key):
     res["nontrivial"].append(h)
 
 
-def violation(res, kind, detail, case, attributed=None, cap=40):
+def violation(res, kind, detail, case, attributed=None, cap=40, info=None):
     """Record a violation.  `attributed` is the known-finding mechanism key or None."""
     if len(res["violations"]) < cap:
-        res["violations"].append({"kind": kind, "detail": detail, "case": case, "attributed": attributed})
+        res["violations"].append({"kind": kind, "detail": detail, "case": case, "attributed": attributed, "info": info})
     else:
         # keep counting so that the parent still fails, but do not keep the payload
         res["violations"].append({"kind": kind, "detail": detail[:200], "case": None, "attributed": attributed})
